@@ -30,6 +30,10 @@ CLAIMS = {
          "library code replies exactly once; reply funnel guarded by the replied flag; recover closure replies iff not replied; every response "
          "method that may reply must reply. Level 'other': necessary (and jointly close to sufficient) conditions of the behavioural statement, "
          "decided statically for all handler programs rather than sampled.", "DESIGN.md section 4 C04"),
+ "C08": ("event classification (apply/publish/listener/panic) + path-universal typestate and dominance over every event method + no-go-on-publish-path census",
+         "Decides for every handler/listener program the order apply -> publish -> listeners, at most one publish per call, that a failing apply, an apply reporting no change, an empty change "
+         "and every invalid call (wrong type, negative index, reserved or malformed name) reach no publish and no listener, that Event fields flow from the apply results / arguments, and that "
+         "nothing between an event/reply call and Conn.Publish is asynchronous. What apply handlers and listeners do is opaque.", "DESIGN.md section 4 C08"),
 }
 
 NA = {
